@@ -7,6 +7,7 @@
   parameter `cv` and every floating point printing function `fmt`.
 -/
 import OpmVerif.Proofs.DeckWrite
+import OpmVerif.Proofs.RawConsts
 
 namespace OpmVerif.Props.C19
 open OpmVerif.Lex OpmVerif.Tok OpmVerif.Scan OpmVerif.DeckWrite
@@ -19,8 +20,8 @@ values (floating point tokens in printed form) and the same default flags — em
 defaults come back from `n*`, trailing ones from the premature end of the record. -/
 theorem parse_write_record (cv : Conv) (fmt : Bytes → Bytes) (flush split : Bool) (items : List Item)
     (r : List Vals) (hc : Conf cv fmt items r) (hlen : r.flatten.length ≤ 2147483647)
-    (htrail : pend flush 0 r.flatten = 0 ∨ r.flatten.length ≤ singlePrefix items)
-    (hat : ∀ t ∈ emitToks fmt flush 0 r.flatten, Atomic t ∧ evenQuotes t = true) :
+    (htrail : pend flush false 0 r.flatten = 0 ∨ r.flatten.length ≤ singlePrefix items)
+    (hat : ∀ t ∈ emitToks fmt flush false 0 r.flatten, Atomic t ∧ evenQuotes t = true) :
     parseRecord cv items (writtenRecordText fmt flush split r) 47 = some (r.map (·.map (normP fmt))) :=
   OpmVerif.DeckWrite.parse_write_record cv fmt flush split items r hc hlen htrail hat
 
@@ -28,15 +29,17 @@ theorem parse_write_record (cv : Conv) (fmt : Bytes → Bytes) (flush split : Bo
 translator finds it in DeckOutput.cpp on this run (`outFlushPendingDefaults`).  As the code
 stands they are dropped (`false`), and `htrail` excludes the records for which that loses
 information: an item of size ALL that ends in defaulted values.  If they are written
-(`true`) nothing is dropped and `htrail` holds for every record. -/
-theorem no_restriction_when_pending_defaults_are_written (flat : Vals) : pend true 0 flat = 0 :=
-  pend_flush flat 0
+whenever the record holds an explicit value (`true`, the candidate fix) nothing is dropped
+from such a record and `htrail` holds for it. -/
+theorem no_restriction_when_pending_defaults_are_written (flat : Vals) (h : ∃ p ∈ flat, p.2 = .deck) :
+    pend true false 0 flat = 0 :=
+  pend_flush flat h 0
 
 /-- The same at token level (no assumption on the shape of the tokens). -/
 theorem parse_write_tokens (cv : Conv) (fmt : Bytes → Bytes) (flush : Bool) (items : List Item) (r : List Vals)
     (hc : Conf cv fmt items r) (hlen : r.flatten.length ≤ 2147483647)
-    (htrail : pend flush 0 r.flatten = 0 ∨ r.flatten.length ≤ singlePrefix items) :
-    parseItems cv items (emitToks fmt flush 0 r.flatten) = some (r.map (·.map (normP fmt))) :=
+    (htrail : pend flush false 0 r.flatten = 0 ∨ r.flatten.length ≤ singlePrefix items) :
+    parseItems cv items (emitToks fmt flush false 0 r.flatten) = some (r.map (·.map (normP fmt))) :=
   OpmVerif.DeckWrite.parse_write_tokens cv fmt flush items r hc hlen htrail
 
 /-- Tokenising the laid-out record gives the emitted tokens; in particular the line
@@ -44,6 +47,13 @@ split of data keywords (every 7 entries, a pending `n*` counting as one) is invi
 theorem tokenize_written (split : Bool) (ts : List Bytes) (h : ∀ t ∈ ts, Atomic t) (next : UInt8) :
     tokenize (layout split 0 ts ++ [32]) next = ts :=
   tokenize_layout_record split ts h next
+
+/-- The layout constants the writer model uses are `DeckOutput::format` of the source tree
+(item separator and record indent one blank, no keyword separator, 7 columns). -/
+theorem output_format_is_the_codes :
+    OpmVerif.Gen.RawConsts.outItemSep = [32] ∧ OpmVerif.Gen.RawConsts.outRecordIndent = [32] ∧
+    OpmVerif.Gen.RawConsts.outKeywordSep = [] ∧ OpmVerif.Gen.RawConsts.outColumns = columns :=
+  OpmVerif.Lex.output_format_eq
 
 /-- `int_print_parse`: the decimal rendering of every `int` parses back to it. -/
 theorem int_print_parse (i : Int) (hlo : -2147483648 ≤ i) (hhi : i ≤ 2147483647) :
@@ -91,7 +101,7 @@ example : Conf OpmVerif.DeckIO.conv idFmt demoSchema demoRecord := by
     by decide, ⟨_, rfl, rfl⟩, by decide, ⟨_, rfl, rfl⟩, trivial⟩
 
 example : demoRecord.flatten.length ≤ 2147483647 ∧
-    (pend false 0 demoRecord.flatten = 0 ∨ demoRecord.flatten.length ≤ singlePrefix demoSchema) := by decide +kernel
+    (pend false false 0 demoRecord.flatten = 0 ∨ demoRecord.flatten.length ≤ singlePrefix demoSchema) := by decide +kernel
 
 example : parseRecord OpmVerif.DeckIO.conv demoSchema (writtenRecordText idFmt false true demoRecord) 47 = some demoRecord := by
   decide +kernel
@@ -104,11 +114,11 @@ example : printInt (-2147483648) = b "-2147483648" ∧ classify (starTok 12) = .
 /-- the excluded shape: an item of size ALL that ends in defaults does not come back
 (the model mirrors the code: the writer drops the pending defaults). -/
 example : parseItems OpmVerif.DeckIO.conv [⟨.int, true, some (.int 0)⟩]
-    (emitToks idFmt false 0 [(.int 5, .deck), (.int 0, .dflt), (.int 0, .dflt)]) = some [[(.int 5, .deck)]] := by decide +kernel
+    (emitToks idFmt false false 0 [(.int 5, .deck), (.int 0, .dflt), (.int 0, .dflt)]) = some [[(.int 5, .deck)]] := by decide +kernel
 
 /-- … and comes back once `end_record` writes the pending defaults (the candidate fix). -/
 example : parseItems OpmVerif.DeckIO.conv [⟨.int, true, some (.int 0)⟩]
-    (emitToks idFmt true 0 [(.int 5, .deck), (.int 0, .dflt), (.int 0, .dflt)]) =
+    (emitToks idFmt true false 0 [(.int 5, .deck), (.int 0, .dflt), (.int 0, .dflt)]) =
       some [[(.int 5, .deck), (.int 0, .dflt), (.int 0, .dflt)]] := by decide +kernel
 
 end OpmVerif.Props.C19
